@@ -172,6 +172,8 @@ CmpB(S, e, mn, op, x) ==
 Mirror(op) == CASE op = "lt" -> "gt" [] op = "le" -> "ge" [] op = "gt" -> "lt" [] op = "ge" -> "le" [] OTHER -> op
 (* side = "r": the member is the right operand (x op member): python falls back to the mirrored method *)
 CmpOp(S, e, mn, op, side, x) == BoolR(CmpB(S, e, mn, IF side = "r" THEN Mirror(op) ELSE op, x))
+(* member.__cmp__(x): the three-way comparison itself (python 2 heritage, still callable) *)
+CmpDirect(S, e, mn, x) == IntR(Cmp3(S, e, e.map[mn], x))
 (* the number (in halves) a numeric operand stands for *)
 Halves(x) == IF x.ty = "float" THEN x.v ELSE 2 * x.v
 Numeric(x) == x.ty \in {"int", "bool", "float", "mem", "own"}
@@ -234,6 +236,16 @@ Conv(e, mn, what) ==
     [] what = "neg" -> IntR(-v) [] what = "abs" -> IntR(Abs(v)) [] what = "invert" -> IntR(-v - 1)
     [] what = "name" -> StrR(mn) [] what = "enumname" -> StrR(e.nm)
     [] what = "pow3" -> IntR(FMod(Pow(v, 2), 3))                       \* pow(member, 2, 3)
+
+(* ------------------------------------------------------------------------- EnumType as a client *)
+(* EnumType(e) keeps a COPY of e (equal, same display name; e itself is never touched, also not by set_name);     *)
+(* dt(key) is the lookup e[key] with the refusals turned into SECoP errors: RangeError for an int / str that is    *)
+(* no member, WrongTypeError for anything else                                                                   *)
+TypeLookup(e, key) ==
+  LET r == Lookup(e, "item", key) IN
+  IF r.r # "exc" THEN r
+  ELSE IF key.ty \in {"int", "bool", "str", "numstr"} THEN Exc("RangeError") ELSE Exc("WrongTypeError")
+TypeExport(e, key) == LET r == TypeLookup(e, key) IN IF r.r = "mem" THEN IntR(r.v) ELSE r
 
 (* ---------------------------------------------------------------------------------- immutability *)
 (* "You can neither modify members nor Enums. You only can create an extended Enum."  The one exception the     *)
@@ -356,7 +368,7 @@ Next == \/ \E form \in NewForms, nm \in DispNames, ps \in AllSeqs(MaxPieces) : \
 Spec == Init /\ [][Next]_vars
 
 (* operand alphabet of the laws *)
-Operands(e) == {V("int", v, "") : v \in IntVals \cup {3}} \cup {V("bool", 0, ""), V("bool", 1, "")}
+Operands(e) == {V("int", v, "") : v \in IV_thorough \cup {3}} \cup {V("bool", 0, ""), V("bool", 1, "")}
                \cup {V("float", h, "") : h \in {-2, -1, 0, 1, 2, 3, 4, 11}}
                \cup {V("str", 0, s) : s \in Names \cup {"zz"}} \cup {V("numstr", 1, ""), V("numstr", 7, "")}
                \cup {V("none", 0, ""), V("list", 0, "")}
